@@ -1,0 +1,5 @@
+//go:build !verif
+
+package dss
+
+func verifTrace(ev string, kv ...any) {}
